@@ -91,6 +91,8 @@ static bool fexists[MAXFILE], ftemp[MAXFILE];
 static int nfiles;
 static int bound = 0, cost = 0, policy = 0;
 static bool optlarge, optforeign, optnoprune, quiet;
+static int optreadlink;        /* -R: 0 the link resolves, 1 readlink fails (no /proc), 2 the target fills the buffer */
+static char *optargv0 = "cproc";  /* -A: argv[0] of the driver */
 static bool observed_failure, env_fault, foreign_done;
 static pid_t nextpid = 1000;
 static bool inworld;  /* true while the driver is running (interposed calls are live) */
@@ -605,6 +607,14 @@ readlink(const char *path, char *buf, size_t len)
 	static const char self[] = "/world/bin/cproc";
 
 	(void)path;
+	if (optreadlink == 1) {
+		errno = ENOENT;
+		return -1;
+	}
+	if (optreadlink == 2) {
+		memset(buf, 'x', len);
+		return len;
+	}
 	if (len < sizeof(self) - 1)
 		return -1;
 	memcpy(buf, self, sizeof(self) - 1);
@@ -1013,6 +1023,10 @@ main(int argc, char *argv[])
 			optforeign = true;
 		} else if (strcmp(argv[i], "-N") == 0) {
 			optnoprune = true;
+		} else if (strcmp(argv[i], "-R") == 0 && i + 1 < argc) {
+			optreadlink = atoi(argv[++i]);
+		} else if (strcmp(argv[i], "-A") == 0 && i + 1 < argc) {
+			optargv0 = argv[++i];
 		}
 	}
 	quiet = true;
@@ -1020,7 +1034,7 @@ main(int argc, char *argv[])
 		while (fgets(line, sizeof(line), stdin)) {
 			line[strcspn(line, "\n")] = 0;
 			drv_argc = 0;
-			words[drv_argc++] = "cproc";
+			words[drv_argc++] = optargv0;
 			for (p = line; *p && drv_argc < 62;) {
 				words[drv_argc++] = p;
 				p += strcspn(p, "\x1f");
@@ -1038,7 +1052,7 @@ main(int argc, char *argv[])
 		fprintf(stderr, "missing -- argv\n");
 		return 2;
 	}
-	argv[i] = "cproc";
+	argv[i] = optargv0;
 	drv_argv = &argv[i];
 	drv_argc = argc - i;
 	if (strcmp(mode, "run") == 0) {
